@@ -23,7 +23,7 @@ def gen_expr(rng, nin, depth, ring=True, need_var=False):
         if need_var or rng.random() < 0.7:
             return ('var', rng.randrange(nin))
         return ('num', rng.choice([1, 2, 3, -1, -2]), rng.choice(['int', 'float']))
-    ops = ['add', 'sub', 'mul', 'neg', 'shift', 'shift', 'ss'] + ([] if ring else ['div', 'pow', 'cdiv', 'log', 'exp'])
+    ops = ['add', 'sub', 'mul', 'neg', 'shift', 'shift', 'ss'] + ([] if ring else ['div', 'pow', 'cdiv', 'log', 'exp', 'rpow', 'epow'])
     op = rng.choice(ops)
     if op in ('add', 'sub', 'mul', 'div'):
         a = gen_expr(rng, nin, depth - 1, ring, need_var=need_var and rng.random() < 0.5)
@@ -41,6 +41,10 @@ def gen_expr(rng, nin, depth, ring=True, need_var=False):
         return ('pow', objectify(rng, nin, gen_expr(rng, nin, depth - 1, ring, need_var=True)), rng.choice([2, 3, 0.5, -1, 1.5]))
     if op == 'cdiv':
         return ('cdiv', rng.choice([1, 2, 3]), gen_expr(rng, nin, depth - 1, ring, need_var=True))
+    if op in ('rpow', 'epow'):    # number ** expression, expression ** expression: small exponents only (towers of powers overflow / produce astronomically long integers)
+        v = ('var', rng.randrange(nin))
+        small = rng.choice([v, ('shift', rng.choice([-1, 1]), v), ('sub', v, ('num', 1, 'int')), ('neg', v), ('div', v, ('num', 2, 'int'))])
+        return ('rpow', rng.choice([2, 3]), small) if op == 'rpow' else ('epow', ('var', rng.randrange(nin)), small)
     return (op, objectify(rng, nin, gen_expr(rng, nin, depth - 1, ring, need_var=True)))
 
 
@@ -101,6 +105,10 @@ def py(e):
         return f'({py(e[1])} ** {e[2]})'
     if k == 'cdiv':
         return f'({e[1]} / {py(e[2])})'
+    if k == 'rpow':
+        return f'({e[1]} ** {py(e[2])})'
+    if k == 'epow':
+        return f'({py(e[1])} ** {py(e[2])})'
     if k == 'log':
         return f'np.log({py(e[1])})' if False else f'{py(e[1])}.apply(np.log)'
     if k == 'exp':
@@ -237,6 +245,8 @@ def _arith(e, f):
     if k == 'neg': return -f(e[1])
     if k == 'pow': return f(e[1]) ** e[2]
     if k == 'cdiv': return e[1] / f(e[2])
+    if k == 'rpow': return e[1] ** f(e[2])
+    if k == 'epow': return f(e[1]) ** f(e[2])
     if k == 'log': return math.log(f(e[1]))
     if k == 'exp': return math.exp(f(e[1]))
     raise ValueError(k)
